@@ -15,7 +15,8 @@
 (*        for dim in x, y:                                                 *)
 (*           Normalize   rescale the movable coordinates so that           *)
 (*                       |x_i| <= half - radius_i        (normalize, l.100)*)
-(*           Step*       orthogonalize + centroids give SOME vector that   *)
+(*           Step*       (zero or more passes) orthogonalize + centroids   *)
+(*                       give SOME vector that                             *)
 (*                       keeps the fixed coordinates; it is normalized     *)
 (*                       again                           (loop body, l.63) *)
 (*           EndDim                                                        *)
@@ -32,7 +33,7 @@
 (* judges observed runs of the real code with the SAME value-level         *)
 (* operators (NormalizeClauses, SeedClauses, TrialClauses, CommitClauses). *)
 (* Property clauses: in_span (every normalized vector, every trial),       *)
-(* disc_in_die, fixed_unmoved, hard_rigid, areas_nets_unchanged (the        *)
+(* disc_in_die, fixed_unmoved, hard_rigid, areas_nets_unchanged (the       *)
 (* committed placement).  Fields named d_... are model conformance only.   *)
 (*                                                                         *)
 (* Lattice world.  Die = [0, 2*HX] x [0, 2*HY]; coordinates during a trial *)
@@ -51,14 +52,14 @@ CONSTANTS HalfSet,       \* set of <<HX, HY>> (half width / height of the die)
           Graphs,        \* set of net topologies (names, see EdgesOf)
           FixSet,        \* set of <<x, y>>: die-centred position of the (first) fixed module
           TrialSet,      \* set of trial counts (nfloorplans >= 1)
-          MaxIter,       \* power-iteration steps per dimension explored by TLC (the code: 1..10000)
+          MaxIter,       \* power-iteration steps per dimension explored by TLC (the code: 0..10000)
           G,             \* grid step of the vectors an iteration may produce
           GS,            \* grid step of the random start
           TOL,           \* tolerance in lattice units: 0 in the model, quantisation noise in trace validation
           EMIT           \* TRUE: print the netlists of the universe (behaviour generation), explore nothing
 
 VARIABLES pc,      \* "seed" | "norm" | "iter" | "commit" | "done" | "emitted"
-          net,     \* the netlist as loaded (never changes: the reference for the frame conditions)
+          net,     \* the netlist as given (never changes: the reference for the frame conditions)
           trial,   \* current trial 1..net.trials
           dim,     \* current dimension 1 (x) | 2 (y)
           iter,    \* iterations done in this dimension
